@@ -43,7 +43,7 @@ EXT_TARGET = "http://example.com/%%7Everif/page?src=%d&x=1#frag"
 SLOT_ORDER = ["names", "types", "ctdecl", "target", "ids", "payload", "container", "orphan", "parallel", "external"]
 FIXED_VALUES = {
     "ctdecl": ["default", "default-upper", "override-case"],
-    "target": ["dot", "dotdot", "abs"],
+    "target": ["dot", "dotdot", "abs", "mode-internal"],   # mode-internal: the default TargetMode="Internal" spelled out
     "ids": ["reversed", "nonrid", "rid10"],
     "payload": ["empty", "all256", "xmlrich", "xmlblob"],
     "container": ["path", "dir"],
@@ -294,7 +294,7 @@ def rel_ref(source: str, target: str) -> str:
 
 def target_text(form: str, source: str, target: str) -> str:
     rel = rel_ref(source, target)
-    if form == "rel":
+    if form in ("rel", "mode-internal"):
         return rel
     if form == "dot":
         return "./" + rel
@@ -442,7 +442,8 @@ def build(case):
             if mode == "External":
                 xml.append('<Relationship Id="%s" Type="%s" Target="%s" TargetMode="External"/>' % (ids[i], ty, _esc(tgt)))
             else:
-                xml.append('<Relationship Id="%s" Type="%s" Target="%s"/>' % (ids[i], ty, _esc(target_text(tform, sname, tgt))))
+                xml.append('<Relationship Id="%s" Type="%s" Target="%s"%s/>' % (
+                    ids[i], ty, _esc(target_text(tform, sname, tgt)), ' TargetMode="Internal"' if tform == "mode-internal" else ""))
         xml.append("</Relationships>")
         if src == -1:
             rn = "_rels/.rels"
